@@ -639,16 +639,22 @@ def check(run):
                         c2["wrap"] = w
                         plan.append((pi, e, c2))
                 # the same call in its other public argument forms
-                if "allow_custom" not in cfg and "interoperability" not in cfg and (run.tier == "thorough" or pi % 2 == 0 or p["variant"] == "witness"):
+                nested = any(isinstance(x, (dict, list)) and x for k_, x in p["data"].items() if k_ in ("extensions", "objects"))
+                if "allow_custom" not in cfg and "interoperability" not in cfg and (
+                        run.tier == "thorough" or pi % 2 == 0 or p["variant"] == "witness" or nested):
                     if e in ("parsing.parse", "environment.Environment.parse", "parsing.parse_observable"):
-                        forms = ("str", "bytes", "file", "object", "positional")
+                        forms = ("str", "bytes", "file", "object", "positional", "mapping", "userdict")
                     elif e == "parsing.dict_to_stix2":
-                        forms = ("object", "positional")
-                    elif e in ("memory.MemoryStore.add", "memory.MemorySink.add", "filesystem.FileSystemSink.add",
-                               "filesystem.FileSystemSource.get", "filesystem.FileSystemSource.query", "filesystem.FileSystemStore.add"):
-                        forms = ("positional", "relpath") if e.startswith("filesystem.") else ("positional",)
+                        forms = ("object", "positional", "mapping")
+                    elif e in MEM_ENTRIES[:5]:
+                        forms = ("positional", "mapping", "userdict") if e.endswith(".add") else ("mapping", "userdict")
+                    elif e in ("filesystem.FileSystemSink.add", "filesystem.FileSystemSource.get", "filesystem.FileSystemSource.query",
+                               "filesystem.FileSystemStore.add"):
+                        forms = ("positional", "relpath") + (("mapping",) if e.endswith(".add") else ())
                     else:
                         forms = ()
+                    if nested and not (run.tier == "thorough" or pi % 2 == 0 or p["variant"] == "witness"):
+                        forms = tuple(f_ for f_ in forms if f_ == "object")
                     for fm in forms:
                         if fm == "positional" and e == "environment.Environment.parse":
                             continue
@@ -794,6 +800,8 @@ def check(run):
             fn_own, ac_own, io_own = own
             if out[0] == "skip":
                 continue
+            if cfg.get("form") in ("mapping", "userdict") and out[0] == "exc" and out[1] == "TypeError":
+                continue        # the entry point does not take this form of input at all: not a question about versions
             if whole_bundle(e, cfg):
                 fn_own = bundle_fn(cfg)
             if cfg.get("form") == "object":
